@@ -51,7 +51,10 @@ def labelled_inputs(rng, rules, starts, n=8, maxlen=14):
 
 
 def draw(rng, profile="full", n_inputs=8, max_rules=5, maxlen=14):
-    rules = ggen.Gen(rng, ggen.PROFILES[profile], max_rules=max_rules).grammar()
+    feats = set(ggen.PROFILES[profile])
+    if profile in ("full", "soi-free") and rng.random() < 0.3:
+        feats.add("bait")  # optimizer-bait shapes (skip-until, literal / character choices) in every check
+    rules = ggen.Gen(rng, feats, max_rules=max_rules).grammar()
     probs = ganalysis.Analysis(rules).problems(BUILTIN_IDS)
     if probs:
         raise RuntimeError(f"generator produced an ill-formed grammar: {probs} {rules}")
